@@ -95,8 +95,10 @@ PROPS = {
                    "work bounds (a loop that spins without consuming shows up only as an unwinding-assertion failure = inconclusive)",
         "assumptions": ["leaf models (each proven equivalent to the real accessor on the asserted domain)", "from_utf8 modelled as always-valid in the text-head harnesses (boundaries, not validation)"],
         "groups": [core({"quick": ["c06::c06_lm", "c06::c06_a1", "c06::c06_wide", "c06_gen::q::"], "thorough": ["c06::c06_", "c06_gen::"]}),
-                   core({"quick": ["c06_gen::q::", "c06::c06_lm"], "thorough": ["c06::c06_a1_n1", "c06::c06_a1_n2", "c06::c06_a1_n3", "c06::c06_wide", "c06::c06_stack_mode", "c06_gen::", "c06::c06_lm"]}, features=("half", "alloc"),
-                        timeout={"quick": 600, "thorough": 7200}, jobs={"quick": 12, "thorough": 3}, mem_gb={"quick": 12, "thorough": 24})],
+                   core({"quick": ["c06_gen::q::", "c06::c06_lm"], "thorough": ["c06::c06_a1_n1", "c06::c06_a1_n2", "c06::c06_a1_n3", "c06::c06_wide", "c06_gen::", "c06::c06_lm"]}, features=("half", "alloc"),
+                        timeout={"quick": 600, "thorough": 7200}, jobs={"quick": 12, "thorough": 6}, mem_gb={"quick": 12, "thorough": 24}),
+                   # 16 GB each: three at a time
+                   core(["c06::c06_stack_mode"], features=("half", "alloc"), tiers=["thorough"], timeout={"thorough": 7200}, jobs={"thorough": 3}, mem_gb={"thorough": 24})],
     },
     "C07": {
         "title": "CborLen is exact",
